@@ -734,15 +734,17 @@ def main():
             # round 3, public syntax only: (i) a default expression that reads a property must see its FINAL value,
             # (ii) a property held (unmodified) by a specifier/default with a literal value has that value, falsy or not,
             # (iii) nothing may fail because a property was read before it was specified
-            if obs["stage"] == "ok" and not reported:
+            if obs["stage"] == "ok":
                 vals = obs.get("vals") or {}
                 for tg, seen_fp in obs.get("pubvals") or []:
                     mt = re.fullmatch(r"\w+\.tr_(\w+)", tg)
+                    if mt and mt.group(1) in vals and vals[mt.group(1)] != seen_fp:
+                        c.hist("dep-final:mismatch")     # counted even when the group has already been reported
                     if mt and mt.group(1) in vals and vals[mt.group(1)] != seen_fp and not reported:
                         reported = True
                         c.violation("dep-final", "a default expression read a property before it had its final value",
                                     dict(base, expression=tg, property=mt.group(1), value_seen=seen_fp, final_value=vals[mt.group(1)]))
-                if v.get("maps") and v["agrees_new"] and not reported:
+                if v.get("maps"):
                     mp, mm = v["maps"]
                     names = {str(num): nm_ for nm_, num in it.props.items()}
                     for pnum, key in mp.items():
@@ -750,10 +752,14 @@ def main():
                         if tg and len(tg) == 1 and tg[0] in cat.VALUE and pnum not in mm:
                             vp, want_fp = cat.VALUE[tg[0]]
                             c.hist("value-oracle:checked")
-                            if names.get(pnum) == vp and vp in vals and vals[vp] != want_fp and not reported:
+                            if names.get(pnum) == vp and vp in vals and vals[vp] != want_fp:
+                                c.hist("value-oracle:mismatch")
+                            if names.get(pnum) == vp and vp in vals and vals[vp] != want_fp and v["agrees_new"] and not reported:
                                 reported = True
                                 c.violation("value", "a property does not have the value of the specifier/default that holds it",
                                             dict(base, property=vp, holder=tg[0], expected=want_fp, final_value=vals[vp]))
+            if obs["stage"] == "eval" and obs.get("exc") == "AttributeError" and cls != "Broken":
+                c.hist("order:attribute-error")
             if obs["stage"] == "eval" and obs.get("exc") == "AttributeError" and cls != "Broken" and not reported:
                 reported = True
                 c.violation("order", "evaluation failed reading a property that was not yet available",
